@@ -49,7 +49,7 @@ def describe(spec):
         parts.append('all words of length <= %d over the 13 raw characters %r (default context)'
                      % (spec['R'], ''.join(words.SIGMA_R)))
     if spec.get('L') is not None:
-        parts.append('all words of length <= %d over the 28 lexemes (default context)' % spec['L'])
+        parts.append('all words of length <= %d over the 30 lexemes (default context)' % spec['L'])
     if spec.get('A') is not None:
         parts.append('for each of the %d macros of the custom all-argument-types context, the macro followed by '
                      'all words of length <= %d over the 15 argument characters' % (len(contexts.CTXA_MACROS), spec['A']))
